@@ -1,18 +1,32 @@
 ------------------------------ MODULE Trace_L2 ------------------------------
-(* Trace validation of full-stack executions (L2 executor) against the monitors of MonL2.tla. *)
+(* Trace validation of full-stack executions (L2 executor) against the monitors of MonL2.tla, and - for executions of
+   paths printed by the model checker - lock-step comparison of every recorded step with what the ideal model UpfL2
+   predicted for it (the prediction travels with the event: e.exp).  A difference is a DIVERGENCE between
+   specification and code: reported, never a verdict. *)
 EXTENDS MonL2, Json, IOUtils
+CONSTANT PktScale
 Trace == ndJsonDeserialize(IOEnv.VERIF_TRACE)
-VARIABLES l, h, viol
-TraceInit == l = 1 /\ h = H0 /\ viol = <<>>
+VARIABLES l, h, viol, div, ncmp, off   \* off: the model's SEID allocation can no longer be assumed (see Step)
+TraceInit == l = 1 /\ h = H0 /\ viol = <<>> /\ div = <<>> /\ ncmp = 0 /\ off = FALSE
 Step == /\ l <= Len(Trace)
         /\ LET L == Trace[l]
                r == StepL2(h, L)
+               cmp == L.e.t # "init" /\ L.e.exp # <<>> /\ L.fatal = "" /\ ~h.skip /\ ~off
+               \* a re-association that releases two or more sessions frees their SEIDs in Go map order: from then on the
+               \* model's prediction of the next UP SEIDs (and everything addressed with them) is one of several legal ones
+               ambiguous == L.e.t = "assoc" /\ Cardinality({x \in h.live : x.node = L.e.node}) >= 2
            IN /\ h' = r.h
               /\ viol' = IF r.v = {} THEN viol ELSE Append(viol, [tr |-> L.tr, i |-> L.i, tags |-> r.v])
+              /\ off' = IF L.e.t = "init" THEN FALSE ELSE (off \/ ambiguous)
+              /\ ncmp' = IF cmp THEN ncmp + 1 ELSE ncmp
+              /\ div' = IF cmp /\ ~SameL2(L.e.exp[1], L, PktScale)
+                         THEN Append(div, [tr |-> L.tr, i |-> L.i, t |-> L.e.t, what |-> WhatL2(L.e.exp[1], L, PktScale),
+                                           model |-> DiffL2(L.e.exp[1], L, PktScale).model, code |-> DiffL2(L.e.exp[1], L, PktScale).code])
+                         ELSE div
         /\ l' = l + 1
 Finish == /\ l = Len(Trace) + 1
-          /\ JsonSerialize(IOEnv.VERIF_VERDICT, [lines |-> Len(Trace), viol |-> viol])
-          /\ l' = l + 1 /\ UNCHANGED <<h, viol>>
-TraceSpec == TraceInit /\ [][Step \/ Finish]_<<l, h, viol>>
+          /\ JsonSerialize(IOEnv.VERIF_VERDICT, [lines |-> Len(Trace), viol |-> viol, div |-> div, compared |-> ncmp])
+          /\ l' = l + 1 /\ UNCHANGED <<h, viol, div, ncmp, off>>
+TraceSpec == TraceInit /\ [][Step \/ Finish]_<<l, h, viol, div, ncmp, off>>
 TraceAccepted == TLCGet("stats").diameter = Len(Trace) + 2
 =============================================================================
